@@ -21,6 +21,10 @@ func UnmarshalJSON(src io.Reader) (Canonicalable, error) {
 	if err != nil {
 		return nil, err
 	}
+	// exactly one JSON value is expected, nothing may follow it
+	if _, err := dec.Token(); err != io.EOF {
+		return nil, errors.New("unexpected data after top-level value")
+	}
 
 	return res, nil
 }
@@ -48,7 +52,8 @@ func CanonicalJSON(src io.Reader) ([]byte, error) {
 func handleNextToken(dec *json.Decoder) (Canonicalable, error) {
 	t, err := dec.Token()
 	if err == io.EOF {
-		return nil, nil
+		// the source ended before the value was complete
+		return nil, io.ErrUnexpectedEOF
 	}
 	if err != nil {
 		return nil, err
